@@ -23,6 +23,7 @@ def run(ck):
     rt.suite_prim_grid(ck, judge=True)
     specs = rt.spec_source(ck, ck.scale(5, 120))
     sessions = rt.sessions(ck, specs)
+    rt.suite_vdump(ck, sessions)
     rt.suite_assign(ck, sessions, ck.scale(3, 6), judge=True)
     return ck.finish(rule=RULE, extra_cov={'exhaustive_grid': True})
 
